@@ -70,6 +70,14 @@ def sizes_table(text):
     return [int(x.strip().replace("_", ""), 0) for x in m.group(1).split(",") if x.strip()]
 
 
+def validate_factor(text, fname, chunk_entries):
+    """1 when validate_plan bounds the chunk index by total_chunks(), CHUNK_ENTRIES when by total_entries()"""
+    m = re.search(r"fn validate_plan\(&self, index: u64, log: &mut LogReader\) -> Result<\(\)> \{\s*if index >= self\.id\.(total_chunks|total_entries)\(\) \{\s*return Err\(", text)
+    if not m:
+        raise Broken(f"{fname}: validate_plan no longer starts with `if index >= self.id.total_chunks() {{ return Err(..`")
+    return 1 if m.group(1) == "total_chunks" else chunk_entries
+
+
 def coq_list(xs):
     return "[" + "; ".join(str(x) for x in xs) + "]"
 
@@ -120,6 +128,14 @@ def main():
     const(index, "META_SIZE", ienv)
     for n in ["CHUNK_ENTRIES_BITS", "CHUNK_ENTRIES", "ENTRY_BITS", "ENTRY_BYTES", "CHUNK_LEN", "HEADER_SIZE", "META_SIZE"]:
         emit("index_" + n.lower(), ienv[n])
+    # the bound of the replay's validation of an InsertIndex action (F26): a chunk index must be compared with the number
+    # of chunks; the factor by which the code's bound exceeds it goes into the model (Proofs/WalCodecRange.v needs 1)
+    emit("index_validate_chunk_factor", validate_factor(index, "index.rs", ienv["CHUNK_ENTRIES"]))
+    if not re.search(r"fn file_size\(index_bits: u8\) -> u64 \{\s*total_entries\(index_bits\) \* 8 \+ META_SIZE as u64\s*\}", index):
+        raise Broken("index.rs file_size is no longer `total_entries(index_bits) * 8 + META_SIZE`")
+    if not re.search(r"fn enact_plan\(&self, index: u64, log: &mut LogReader\)[^}]*?let offset = META_SIZE \+ index as usize \* CHUNK_LEN;", index, re.S) and \
+       not re.search(r"fn enact_plan\(&self, index: u64, log: &mut LogReader\).*?let offset = META_SIZE \+ index as usize \* CHUNK_LEN;", index, re.S):
+        raise Broken("IndexTable::enact_plan no longer writes at META_SIZE + index * CHUNK_LEN")
     # the shape of Entry::address_bits must be index_bits + CHUNK_ENTRIES_BITS + SIZE_TIERS_BITS
     if not re.search(r"fn address_bits\(index_bits: u8\) -> u8 \{\s*index_bits \+ CHUNK_ENTRIES_BITS \+ SIZE_TIERS_BITS\s*\}", index):
         raise Broken("Entry::address_bits is no longer `index_bits + CHUNK_ENTRIES_BITS + SIZE_TIERS_BITS`")
@@ -133,6 +149,7 @@ def main():
     const(refc, "META_SIZE", renv)
     for n in ["CHUNK_ENTRIES_BITS", "CHUNK_ENTRIES", "ENTRY_BITS", "ENTRY_BYTES", "META_SIZE"]:
         emit("refcount_" + n.lower(), renv[n])
+    emit("refcount_validate_chunk_factor", validate_factor(refc, "ref_count.rs", renv["CHUNK_ENTRIES"]))
 
     # column.rs
     cenv = dict(tenv)
